@@ -2816,7 +2816,9 @@ async def _one_cycle(env: Env, rec: Rec, case: dict, k: int, step: dict, own_fin
 
     async def spawn(**kw: Any) -> Any:
         obs["spawn"] = [str(h.id) for h in kw["handlers"]]
-        return list(await orig[4](**kw)) if real_daemons else []
+        r = list(await orig[4](**kw)) if real_daemons else []
+        obs["daemon_delays"] += r      # (/repo ef26531: a matching handler whose old daemon is still being escorted out)
+        return r
 
     async def matchd(**kw: Any) -> Any:
         r = list(await orig[5](**kw)) if real_daemons else []
@@ -2824,7 +2826,9 @@ async def _one_cycle(env: Env, rec: Rec, case: dict, k: int, step: dict, own_fin
         return r
 
     async def pause(**kw: Any) -> Any:
-        return list(await orig[6](**kw)) if real_daemons else []
+        r = list(await orig[6](**kw)) if real_daemons else []
+        obs["daemon_delays"] += r
+        return r
 
     async def stopd(**kw: Any) -> Any:
         r = list(await orig[7](**kw)) if real_daemons else []
